@@ -729,6 +729,59 @@ pub fn gen_program(rng: &mut Rng, knobs: &GenKnobs) -> Program {
             ],
         });
     }
+    // shape family "a chain of overlapping premise equalities over three variables that are all
+    // bound by atoms" (`p(a); q(b); a = b; r(c); b = c`): premise equalities are compiled away by
+    // renaming variables to their class representative, which has to follow chains. The decision
+    // and the choices come from a generator of their own (seeded by the program text so far), so
+    // that programs without this rule are exactly what they were before the family existed.
+    {
+        let mut r2 = Rng::new(simcore::fnv_str(&crate::print::program(&p)) ^ 0x6571_6368_6169_6e);
+        // predicates with a column of sort s, as (relation, column)
+        let with_col = |s: usize| -> Vec<(usize, usize)> {
+            let mut v = Vec::new();
+            for (ri, r) in p.rels.iter().enumerate() {
+                if r.kind == RelKind::Pred {
+                    for (ci, cs) in r.args.iter().enumerate() {
+                        if *cs == s {
+                            v.push((ri, ci));
+                        }
+                    }
+                }
+            }
+            v
+        };
+        let plain: Vec<usize> = (0..p.sorts.len()).filter(|s| p.sorts[*s].kind == SortKind::Plain && !with_col(*s).is_empty()).collect();
+        if !plain.is_empty() && r2.chance(1, 3) {
+            let s = *r2.pick(&plain);
+            let cols = with_col(s);
+            let v = |n: &str| Term::Var(n.to_string());
+            let atom = |r2: &mut Rng, name: &str| -> Stmt {
+                let (ri, ci) = *r2.pick(&cols);
+                let args: Vec<Term> = (0..p.rels[ri].args.len()).map(|i| if i == ci { v(name) } else { Term::Wild }).collect();
+                Stmt::If(Atom::Pred(ri, args))
+            };
+            // the conclusion: a predicate all of whose columns have sort s, filled with a (and c)
+            let concl = p.rels.iter().position(|r| r.kind == RelKind::Pred && !r.args.is_empty() && r.args.iter().all(|x| *x == s));
+            if let Some(ci) = concl {
+                let n = p.rels[ci].args.len();
+                let cargs: Vec<Term> = (0..n).map(|i| if i % 2 == 0 { v("a") } else { v("c") }).collect();
+                let mut stmts = vec![atom(&mut r2, "a"), atom(&mut r2, "b")];
+                if r2.chance(1, 2) {
+                    // interleaved: p(a); q(b); a = b; r(c); b = c
+                    stmts.push(Stmt::If(Atom::Eq(v("a"), v("b"))));
+                    stmts.push(atom(&mut r2, "c"));
+                    stmts.push(Stmt::If(Atom::Eq(v("b"), v("c"))));
+                } else {
+                    // all atoms first, then c = d style chain: p(a); q(b); r(c); a = b; b = c
+                    stmts.push(atom(&mut r2, "c"));
+                    stmts.push(Stmt::If(Atom::Eq(v("a"), v("b"))));
+                    stmts.push(Stmt::If(Atom::Eq(v("b"), v("c"))));
+                }
+                stmts.push(Stmt::Then(Atom::Pred(ci, cargs)));
+                p.rules.push(Rule { name: Some("eqc".into()), stmts });
+            }
+        }
+    }
     p
 }
 
